@@ -49,6 +49,9 @@ def _first_frame_any(lines):
 def classify_crash(stderr_text, repo, kind_hint):
     """returns (key, summary) for a crashed worker"""
     lines = stderr_text.splitlines()
+    m = re.search(r'^VH-ABORT-KEY (\S+)', stderr_text, re.M)
+    if m:
+        return m.group(1), 'harness-decided abort (non-termination in logical steps)'
     # AddressSanitizer
     for i, ln in enumerate(lines):
         m = re.search(r'ERROR: AddressSanitizer: ([a-zA-Z0-9_-]+)', ln)
